@@ -7,24 +7,7 @@ import TealerModel.Lemmas.StepEdge
 namespace Tealer.ParseSubs
 open Tealer.Reach
 
-theorem mapM_except_mem_rev {α β : Type} (f : α → Except Err β) (l : List α) (r : List β)
-    (h : l.mapM f = .ok r) (y : β) (hy : y ∈ r) : ∃ x ∈ l, f x = .ok y := by
-  induction l generalizing r with
-  | nil => simp [List.mapM_nil, pure, Except.pure] at h; subst h; cases hy
-  | cons a as ih =>
-    simp only [List.mapM_cons, bind, Except.bind] at h
-    split at h
-    · cases h
-    · rename_i y0 hy0
-      split at h
-      · cases h
-      · rename_i ys hys
-        simp only [pure, Except.pure, Except.ok.injEq] at h
-        subst h
-        rcases List.mem_cons.mp hy with rfl | hy'
-        · exact ⟨a, by simp, hy0⟩
-        · obtain ⟨x, hx, hf⟩ := ih ys hys hy'
-          exact ⟨x, by simp [hx], hf⟩
+export Tealer.StepEdge (mapM_except_mem_rev)
 
 theorem createBB_nonempty (ins : List Ins) (nexts : List (List Nat)) : 0 < (createBB ins nexts).1.length := by
   unfold createBB; simp
